@@ -239,6 +239,69 @@ def comparisons(fn):
     return out
 
 
+def resolve_const_edge(fn, tb, maxsteps=8):
+    """Follow a branch target through the lowering of `a && b` / `a || b`: blocks that assign a constant boolean to a
+    temporary and jump to a join block that immediately switches on that temporary.  Returns the block finally reached
+    once the outcome no longer follows from constants (tb itself if nothing can be resolved)."""
+    env = {}
+    cur = tb
+    for _ in range(maxsteps):
+        for s in fn.stmts(cur):
+            if "lhs" not in s or s["lhs"][1]:
+                continue
+            rv = s["rv"]
+            l = s["lhs"][0]
+            if rv["k"] == "use":
+                k = op_const(rv["a"])
+                p = op_place(rv["a"])
+                if k is not None and k.get("ty") == "bool":
+                    env[l] = bool(const_int(k))
+                elif p is not None and not p[1] and p[0] in env:
+                    env[l] = env[p[0]]
+                else:
+                    env.pop(l, None)
+            elif rv["k"] == "un" and rv["op"] == "Not":
+                p = op_place(rv["a"])
+                if p is not None and not p[1] and p[0] in env:
+                    env[l] = not env[p[0]]
+                else:
+                    env.pop(l, None)
+            else:
+                env.pop(l, None)
+        t = fn.term(cur)
+        if t["k"] == "goto":
+            if not env:
+                return cur if cur != tb else tb
+            cur = t["target"]
+            continue
+        if t["k"] == "call" and callee_match(t, ANYHOW_NOT) and not t["dest"][1]:
+            p = op_place(t["args"][0])
+            if p is not None and not p[1] and p[0] in env and t.get("target") is not None:
+                env[t["dest"][0]] = not env[p[0]]
+                cur = t["target"]
+                continue
+            return cur
+        if t["k"] == "switch":
+            p = op_place(t["d"])
+            if p is not None and not p[1] and p[0] in env:
+                val = env[p[0]]
+                nxt = None
+                for v, b in t["t"]:
+                    if v == "0" and not val:
+                        nxt = b
+                if nxt is None:
+                    nxt = t["o"] if val or not any(v == "0" for v, _ in t["t"]) else None
+                if nxt is None:
+                    return cur
+                cur = nxt
+                env2 = dict(env)
+                env = env2
+                continue
+            return cur
+        return cur
+    return cur
+
+
 def cmp_rejects(fn, comp, info=None):
     """For a comparison record, follow its boolean result to a switch and report the
     relation (over a,b) under which control enters the reject region.
@@ -286,8 +349,8 @@ def cmp_rejects(fn, comp, info=None):
         true_t = st["o"] if false_t is not None else None
         if false_t is None:
             continue
-        t_in = true_t in rr
-        f_in = false_t in rr
+        t_in = true_t in rr or resolve_const_edge(fn, true_t) in rr
+        f_in = false_t in rr or resolve_const_edge(fn, false_t) in rr
         if t_in and not f_in:
             rel = comp["op"] if pos else NEG[comp["op"]]
             if info is not None:
@@ -562,6 +625,102 @@ def bounds_proved(fn, base_local, site):
             return True, "bound %s <= checked %s (facts %s), checked against len at bb%d" % (fmt_lin(lb), fmt_lin(lo), facts, cx["bb"])
         why.append("bound %s not implied by checked %s" % (fmt_lin(lb), fmt_lin(lo)))
     return False, "; ".join(why) or "no dominating enforced comparison with the length"
+
+
+def bounds_tightness(fn, base_local, site):
+    """For a slice site proved in bounds: is the proving test EXACT, i.e. does it reject only when the slice's own upper
+    bound exceeds the length (non-strict comparison of that very bound)?  Returns (tight, detail); tight is None when no
+    proving comparison is found.  A stricter test is still memory safe but traps on an access that ends exactly at the end
+    of memory."""
+    bi, t, rb = site
+    if rb is None:
+        return None, "no range"
+    kind, st, en = rb
+    if kind != "range" and kind != "to" and kind != "from":
+        pass
+    if kind == "full":
+        return True, "full range"
+    bound = en if en is not None else st
+    lb = lin(fn, bound)
+    if lb is None:
+        return None, "not linear"
+    best = None
+    for cx in comparisons(fn):
+        if cx["kind"] != "bin" or not fn.dominates(cx["bb"], bi):
+            continue
+        oa = fn.origins(cx["a"], deep=True)
+        ob = fn.origins(cx["b"], deep=True)
+        is_len_a = any(a[0] == "call" and a[1].endswith("::len") for a in oa) and ("arg", base_local) in oa and lin(fn, cx["a"]) is not None and len(lin(fn, cx["a"])[0]) == 1
+        is_len_b = any(a[0] == "call" and a[1].endswith("::len") for a in ob) and ("arg", base_local) in ob and lin(fn, cx["b"]) is not None and len(lin(fn, cx["b"])[0]) == 1
+        if is_len_a == is_len_b:
+            continue
+        other = cx["b"] if is_len_a else cx["a"]
+        info = {}
+        rel, d = cmp_rejects(fn, cx, info)
+        if rel is None or "pass_target" not in info or not fn.dominates(info["pass_target"], bi):
+            continue
+        if is_len_a:
+            rel = FLIP[rel]
+        if rel not in ("Gt", "Ge"):
+            continue
+        lo = lin(fn, other)
+        if lo is None:
+            continue
+        facts = equality_facts(fn, bi)
+        if not lin_le(lb, lo, facts):
+            continue
+        exact = lin_le(lo, lb, facts)
+        if rel == "Gt" and exact:
+            return True, "rejects exactly when %s > len (bb%d)" % (fmt_lin(lo), cx["bb"])
+        best = "test at bb%d rejects when %s %s len while the slice ends at %s" % (cx["bb"], fmt_lin(lo), {"Gt": ">", "Ge": ">="}[rel], fmt_lin(lb))
+    if best is None:
+        return None, "no proving comparison"
+    return False, best
+
+
+def len_tests_exact(fn, base_local, sites):
+    """For every enforced test of an offset against base.len() that guards slice sites: is it exact for at least one of
+    them (rejects precisely when that slice's upper bound exceeds the length)?  Returns [(cmp_bb, n_guarded, exact, detail)]."""
+    out = []
+    for cx in comparisons(fn):
+        if cx["kind"] != "bin":
+            continue
+        oa = fn.origins(cx["a"], deep=True)
+        ob = fn.origins(cx["b"], deep=True)
+        is_len_a = any(a[0] == "call" and a[1].endswith("::len") for a in oa) and ("arg", base_local) in oa and lin(fn, cx["a"]) is not None and len(lin(fn, cx["a"])[0]) == 1
+        is_len_b = any(a[0] == "call" and a[1].endswith("::len") for a in ob) and ("arg", base_local) in ob and lin(fn, cx["b"]) is not None and len(lin(fn, cx["b"])[0]) == 1
+        if is_len_a == is_len_b:
+            continue
+        other = cx["b"] if is_len_a else cx["a"]
+        info = {}
+        rel, d = cmp_rejects(fn, cx, info)
+        if rel is None or "pass_target" not in info:
+            continue
+        if is_len_a:
+            rel = FLIP[rel]
+        if rel not in ("Gt", "Ge"):
+            continue
+        lo = lin(fn, other)
+        if lo is None:
+            continue
+        guarded, exact, ends = 0, False, []
+        for (bi, t, rb) in sites:
+            if rb is None or rb[0] == "full" or not fn.dominates(info["pass_target"], bi):
+                continue
+            bound = rb[2] if rb[2] is not None else rb[1]
+            lb = lin(fn, bound)
+            if lb is None:
+                continue
+            facts = equality_facts(fn, bi)
+            if not lin_le(lb, lo, facts):
+                continue
+            guarded += 1
+            ends.append(fmt_lin(lb))
+            if rel == "Gt" and lin_le(lo, lb, facts):
+                exact = True
+        if guarded:
+            out.append((cx["bb"], guarded, exact, "rejects when %s %s len; guarded slices end at %s" % (fmt_lin(lo), {"Gt": ">", "Ge": ">="}[rel], sorted(set(ends)))))
+    return out
 
 
 def fmt_lin(l):
